@@ -4,3 +4,5 @@ import AM.Model.Silencer
 import AM.Lemmas.SilenceStore
 import AM.Props.C09
 import AM.Props.C12
+import AM.Lemmas.SilencerInv
+import AM.Props.C02
